@@ -147,6 +147,27 @@ func (sc c16Scenario) build(r *kit.Run) sched.Body {
 	}
 }
 
+// rawOffsetMismatch reads the board file's lines and reports the first whose "offset" member is
+// not its position.
+func rawOffsetMismatch(raw string) (pos int, off uint64, bad bool) {
+	lines := strings.Split(strings.TrimSuffix(raw, "\n"), "\n")
+	if raw == "" {
+		return 0, 0, false
+	}
+	for p, l := range lines {
+		var m struct {
+			Offset uint64 `json:"offset"`
+		}
+		if err := json.Unmarshal([]byte(l), &m); err != nil {
+			continue // torn or foreign lines are judged by the reader's oracle
+		}
+		if m.Offset != uint64(p) {
+			return p, m.Offset, true
+		}
+	}
+	return 0, 0, false
+}
+
 // checkLog judges a final log against what was sent and read.
 func checkLog(r *kit.Run, scen string, o *c16obs, schedule func() interface{}) {
 	viol := func(key, what string) { r.Violation("C16/"+key+"/"+scen, scen+": "+what, schedule()) }
@@ -156,6 +177,11 @@ func checkLog(r *kit.Run, scen string, o *c16obs, schedule func() interface{}) {
 	}
 	if len(o.Errors) > 0 {
 		viol("operation-failed", strings.Join(o.Errors, "; "))
+	}
+	// the offset WRITTEN into each line (what the sender was assigned; the reader may number the
+	// lines it returns itself) is its position too
+	if p, off, bad := rawOffsetMismatch(o.Raw); bad {
+		viol("offset-is-not-position", fmt.Sprintf("the line at position %d of the board file was written with offset %d", p, off))
 	}
 	count := map[string]int{}
 	for p, m := range o.Final {
@@ -344,6 +370,11 @@ func c16Sizes(r *kit.Run, tier string) int {
 				szs = append(szs, sizes[si])
 			}
 			trace := func() interface{} { return map[string]interface{}{"payload_sizes": szs} }
+			if raw, err := os.ReadFile(filepath.Join(dir, "f")); err == nil {
+				if p, off, bad := rawOffsetMismatch(string(raw)); bad {
+					r.Violation("C16/offset-is-not-position/sizes", fmt.Sprintf("after messages of payload sizes %v the line at position %d of the board file was written with offset %d", szs, p, off), trace())
+				}
+			}
 			if o.FinalErr != "" {
 				r.Violation("C16/log-unreadable/sizes", fmt.Sprintf("after messages of payload sizes %v the log cannot be read: %s", szs, o.FinalErr), trace())
 			} else {
